@@ -1618,6 +1618,43 @@ namespace bloch::runtime {
                     markObject(obj);
             }
         }
+        // An unreachable object that owns qubits (or tracked fields) is never reclaimed here: its
+        // release resets qubits and records outcomes, which must not depend on when a collection
+        // happens. For the same reason nothing from which such an object can be reached may be
+        // swept - clearing the holder's fields would release the qubit owner on the spot.
+        {
+            std::unordered_set<const Object*> pinned;
+            for (auto& obj : objects)
+                if (!obj->marked && obj->cls && obj->cls->hasTrackedFields)
+                    pinned.insert(obj.get());
+            auto refersToPinned = [&](const Value& v) {
+                if (v.type == Value::Type::Object && v.objectValue)
+                    return pinned.count(v.objectValue.get()) > 0;
+                if (v.type == Value::Type::ObjectArray)
+                    for (const auto& o : v.objectArray)
+                        if (o && pinned.count(o.get()))
+                            return true;
+                return false;
+            };
+            bool changed = !pinned.empty();
+            while (changed) {
+                changed = false;
+                for (auto& obj : objects) {
+                    if (obj->marked || pinned.count(obj.get()))
+                        continue;
+                    for (const auto& f : obj->fields) {
+                        if (refersToPinned(f)) {
+                            pinned.insert(obj.get());
+                            changed = true;
+                            break;
+                        }
+                    }
+                }
+            }
+            for (auto& obj : objects)
+                if (pinned.count(obj.get()))
+                    markObject(obj);
+        }
         // Sweep unmarked non-tracked objects
         std::vector<std::shared_ptr<Object>> unreachable;
         for (auto& obj : objects) {
